@@ -922,6 +922,41 @@ def cases(ctx):
         t_exp = with_block(random.Random(k), base, exp)
         yield "respell-outside-inherit", [21, origin, int(rel), base, t_inh]
         yield "respell-owner-outside", [21, origin, int(rel), t_exp, t_inh]
+    # $INCLUDE (file system; oracle only): a file split into a main part and an included part, optionally
+    # with an origin for the included part, loads like the flat file with $ORIGIN around the part
+    for i in range(ctx.n(40, 600)):
+        origin, rel, nodes = gen_zone(rng, max_names=rng.choice([2, 4]))
+        if len(nodes) < 2:
+            continue
+        k = rng.randint(1, len(nodes) - 1)
+        inc_origin = None
+        if rng.random() < 0.5:
+            inc_origin = gen_under(rng, origin, 1) if rng.random() < 0.7 else gen_origin(rng)
+        main1 = zone_file(rng, origin, rel, nodes[:k], plain=True)
+        sp = Speller(rng, origin, plain=True)
+        if inc_origin is not None:
+            sp.cur = inc_origin
+        inc = b"".join(sp.record(n_abs, ty, ttl, rd) for n_abs, rdss in nodes[k:] for ty, cov, ttl, rds in rdss for rd in rds)
+        main2 = b"" if rng.random() < 0.5 else b"tail-%d 300 IN A 192.0.2.%d\n" % (rng.randrange(9), rng.randrange(250))
+        flat = main1 + (b"$ORIGIN " + name_text(inc_origin) + b"\n" if inc_origin is not None else b"") + inc + \
+            (b"$ORIGIN " + name_text(origin) + b"\n" if inc_origin is not None else b"") + main2
+        yield "respell-include", [25, origin, int(rel), main1, inc_origin, inc, main2, flat]
+    # $UNICODE (oracle only): UTF-8 TXT data and IDNA owner names survive write-then-read
+    for i in range(ctx.n(30, 300)):
+        origin = [b"example", b""]
+        rel = rng.random() < 0.5
+        words = ["gr\u00fc\u00dfe", "caf\u00e9 \\\" ; x", "\u65e5\u672c", "plain", "na\u00efve (x)"]
+        names = ["b\u00fccher", "m\u00fcnchen.sub", "www", "\u00e9cole"]
+        lines = ["$UNICODE " + rng.choice(["2003 TXT", "TXT", "2003", "txt 2003"]),
+                 "@ 300 IN SOA ns hostmaster 1 2 3 4 5", "@ 300 IN NS ns"]
+        idn = "2003" in lines[0]
+        for n in rng.sample(names, rng.randint(1, 3)):
+            if not idn and any(ord(ch) > 127 for ch in n):
+                continue
+            lines.append('%s %d IN A 10.0.0.%d' % (n, rng.choice([300, 60]), rng.randrange(250)))
+            if rng.random() < 0.6:
+                lines.append('%s 300 IN TXT %s' % (n, " ".join('"%s"' % rng.choice(words) for _ in range(rng.randint(1, 2)))))
+        yield "unicode-roundtrip", [26, origin, int(rel), ("\n".join(lines) + "\n").encode("utf-8")]
     for i in range(ctx.n(80, 1200)):
         origin, rel, nodes = gen_zone(rng, max_names=rng.choice([1, 3]))
         base = zone_file(rng, origin, rel, nodes, plain=True)
@@ -1041,6 +1076,33 @@ def impl(case):
             if codes != [0, 0]:
                 return [codes[0], codes[1], 0, 0]
             return [0, 0, int(zs[0] == zs[1]), int(canon(dump(zs[0])) == canon(dump(zs[1])))]
+        if op == 25:
+            main1, inc_origin, inc, main2, flat = case[3:8]
+            d = tempfile.mkdtemp(prefix="c09inc")
+            try:
+                path = os.path.join(d, "part.zone")
+                with open(path, "wb") as f:
+                    f.write(inc)
+                directive = b"$INCLUDE " + path.encode() + (b" " + name_text(inc_origin) if inc_origin is not None else b"") + b"\n"
+                text = main1 + directive + main2
+                z1 = dns.zone.from_text(text.decode("latin-1"), origin=oname(case[1]), relativize=bool(case[2]), allow_include=True)
+                mpath = os.path.join(d, "main.zone")
+                with open(mpath, "wb") as f:
+                    f.write(text)
+                z2 = dns.zone.from_file(mpath, origin=oname(case[1]), relativize=bool(case[2]))
+            finally:
+                for fn in os.listdir(d):
+                    os.unlink(os.path.join(d, fn))
+                os.rmdir(d)
+            z3 = load(flat, case[1], case[2])
+            return [int(z1 == z3), int(canon(dump(z1)) == canon(dump(z3))), int(z2 == z3), int(canon(dump(z2)) == canon(dump(z3)))]
+        if op == 26:
+            text = bytes(case[3]).decode("utf-8")
+            z = dns.zone.from_text(text, origin=oname(case[1]), relativize=bool(case[2]))
+            t = z.to_text(relativize=bool(case[2]))
+            z2 = dns.zone.from_text(t, origin=oname(case[1]), relativize=bool(case[2]))
+            return [int(z2 == z), int(canon(dump(z2)) == canon(dump(z))), int(z2.unicode == z.unicode),
+                    int(t.startswith("$UNICODE"))]
         if op == 24:
             outs, codes = [], []
             for t in (case[3], case[4]):
@@ -1079,9 +1141,9 @@ def oracle(ctx, kind, case, out):
     op = case[0]
     if isinstance(out, Err):
         # which exception classes may escape is C04's property; here only well-formed input matters
-        if op in (20, 21, 23, 24) and (out.code >= 100 or out.code < 0 or out.code == 11):
+        if op in (20, 21, 23, 24, 25, 26) and (out.code >= 100 or out.code < 0 or out.code == 11):
             fail("unexpected exception " + out.text, sig="exc")
-        if op == 20 and out.code < 100:
+        if op in (20, 25, 26) and out.code < 100:
             fail("a well-formed zone / respelling was rejected: " + out.text, sig="rejected-" + str(out.code))
         if op == 23 and 0 <= case[1] <= 2**32 - 1:
             fail("decimal TTL rejected")
@@ -1115,6 +1177,12 @@ def oracle(ctx, kind, case, out):
             fail("a well-formed spelling was rejected (%d / %d)" % (c1, c2), sig=kind + "-rejected")
         elif not (eq and eqd):
             fail("equivalent spellings loaded to different zones", sig=kind)
+    elif op == 25:
+        if not all(out):
+            fail("$INCLUDE: the split file and the flat file loaded to different zones", sig=kind)
+    elif op == 26:
+        if not all(out):
+            fail("$UNICODE zone changed by write-then-read", sig=kind)
     elif op == 24:
         c1, c2, eq, n1 = out
         if c1 or c2:
